@@ -12,8 +12,9 @@ from checks import scenarios as S
 
 PROP = "C03"
 LEVEL = "proof"
-THEOREMS = {"Proofs.Props.C03": ["MsPack.Chm.C03_encint_roundtrip"]}
-ASSUMPTIONS = ["header/directory/LZX round trips are not theorems yet (only ENCINT is): covered by model/implementation agreement and by the plan oracle",
+THEOREMS = {"Proofs.Props.C03": ["MsPack.Chm.C03_encint_roundtrip"],
+            "Proofs.Props.C03Headers": ["MsPack.Chm.C03_headers_roundtrip", "MsPack.Chm.C03_open_roundtrip", "MsPack.Chm.C03_headers_roundtrip_files"]}
+ASSUMPTIONS = ["the listing round trip (C03_headers_roundtrip: ITSF/ITSP headers and any number of PMGL chunks without index chunks, system files or non-minimal ENCINTs) and ENCINT are theorems; index chunks, system files, section-1 (LZX) content are covered by model/implementation agreement and by the plan oracle; the specification's writer is fed to the real chmd_open (`prim encchm`, family chm.spec-headers)",
                "CHM with E8 translation beyond the first reset interval is a known finding (D12) and is generated only in the directed family"]
 RULE = ("chm.plan: random plans from gen/vgen/chm.py; every listed file is extracted in listing order and again in reverse order (decoding restarts at reset points); "
         "non-trivial = at least one member with data in the compressed section; distinct by file bytes")
@@ -29,8 +30,70 @@ def plan_case(case, order, family="chm.plan"):
                        sysfiles=[s.hex() for s in case["meta"]["expect"].get("sysfiles", [])],
                        nontrivial=any(m["section"] == 1 and m["data"] for m in mem))
 
+def encint_len(n):
+    k = 1
+    while n >> (7 * k): k += 1
+    return k
+
+def spec_header_cases(ctx):
+    """the CHM *specification writer* of C03_headers_roundtrip (Lean `Chm.encodeChm`, run by the driver as `prim encchm`)
+    against the real chmd_open: random well-formed directory specifications (versions 2/3, chunk sizes 40..600, 1-6 PMGL
+    chunks, names of every length incl. 0 and 1 byte, directory entries, offsets/lengths up to 2^63-1) -> spec bytes ->
+    open() must list exactly the spec's file entries, in order, and report its header fields"""
+    import subprocess, tempfile
+    rng = ctx.rng
+    n = 40 if ctx.tier == "quick" else 1000
+    specs = []
+    for _ in range(n):
+        cs = rng.choice([40, 64, 100, 256, 600])
+        chunks = []
+        for _c in range(rng.choice([1, 1, 2, 3, 6])):
+            es = []; used = 22
+            for _e in range(rng.choice([0, 1, 2, 5, 12])):
+                ln = rng.choice([0, 1, 2, 3, 8, 20, 60])
+                name = bytes(rng.choice(b"/abcXYZ.\xc3\xa9") for _ in range(ln))
+                if name[:2] == b"::": name = b"/" + name[1:]
+                if rng.random() < 0.2 and ln: name = name[:-1] + b"/"
+                sec = rng.choice([0, 1])
+                off = rng.choice([0, 0, 5, 127, 128, 300, 1 << 20, (1 << 63) - 1, rng.randrange(1 << 40)])
+                le = rng.choice([0, 0, 1, 70000, (1 << 63) - 1, rng.randrange(1 << 33)])
+                sz = encint_len(len(name)) + len(name) + encint_len(sec) + encint_len(off) + encint_len(le)
+                if used + sz > cs: continue
+                used += sz; es.append((name, sec, off, le))
+            chunks.append(es)
+        specs.append((rng.choice([2, 3]), rng.getrandbits(32), rng.choice([0x409, rng.getrandbits(32)]), cs, rng.choice([0, 1, 2, 5, 40, (1 << 32) - 1]),
+                      bytes(rng.randrange(256) for _ in range(rng.choice([0, 3, 100]))), chunks))
+    def line(sp):
+        v, ts, la, cs, de, content, chunks = sp
+        t = [f"prim encchm {v} {ts} {la} {cs} {de} {content.hex() or '='} {len(chunks)}"]
+        for es in chunks:
+            t.append(str(len(es)))
+            for (nm, sec, off, le) in es: t.append(f"{nm.hex() or '='} {sec} {off} {le}")
+        return " ".join(t)
+    with tempfile.NamedTemporaryFile("w", suffix=".case", dir=C.BUILD, delete=False) as tf:
+        tf.write("\n".join(line(sp) for sp in specs) + "\n"); tp = tf.name
+    try:
+        out = [l for l in subprocess.run([C.DRIVER, tp], capture_output=True, text=True).stdout.splitlines() if l.startswith("prim encchm")]
+    finally:
+        os.unlink(tp)
+    if len(out) != len(specs) or any("bad-args" in l for l in out):
+        C.log(f"C03: driver answered {len(out)} of {len(specs)} prim encchm requests"); return
+    for sp, l in zip(specs, out):
+        v, ts, la, cs, de, content, chunks = sp
+        f = l.split(" ")[2]
+        want = []
+        for es in chunks:
+            for (nm, sec, off, le) in es:
+                if len(nm) < 2 or nm[0] == 0 or nm[1] == 0: continue
+                if off == 0 and le == 0 and nm.endswith(b"/"): continue
+                want.append([nm.hex(), sec, off, le])
+        hdr = dict(ver=v, ts=ts, lang=la, chunksize=cs, density=de, nchunks=len(chunks), depth=1, indexroot=0xFFFFFFFF, firstpmgl=0, lastpmgl=len(chunks) - 1,
+                   len=len(f) // 2)
+        yield [f"file f.chm {f}", "new chm", "open i0 f.chm", "close i0 h0", "destroy i0"], dict(family="chm.spec-headers", want=want, hdr=hdr, nontrivial=bool(want))
+
 def generate(ctx):
     rng = ctx.rng
+    yield from spec_header_cases(ctx)
     # directed: the decoder is (re)initialised for a file beyond the first reset interval, for every
     # reset-table variant (normal, 4-byte entries, missing -> SpanInfo fallback, short table)
     # ... and with the table's entries NOT directly behind its 0x28-byte header (TableOffset 0x30 / 0x38)
@@ -106,6 +169,21 @@ def judge(ctx, meta, impl, model):
             if e.get("st") != "0" or e.get("out") != m["digest"]:
                 fs.append(Finding("violation", f"extract of listing entry {j} ({files[j].get('name')[:30]}, section {m['sec']}): st={e.get('st')} out={e.get('out')} planned {m['digest']}"))
                 break
+    if meta["family"] == "chm.spec-headers":
+        if crash: return [Finding("violation", "spec-encoded CHM: implementation " + crash[0])]
+        op = next((b for b in impl if b[0].startswith("open")), None)
+        if op is None or " st=0" not in op[0]:
+            return [Finding("violation", f"spec-encoded CHM refused by open(): {op[0] if op else None}")]
+        files = [C.kv(l) for l in op[1:] if l.startswith("file ")]
+        got = [[f.get("name") if f.get("name") not in ("=", "-") else "", int(f["sec"]), int(f["off"]), int(f["len"])] for f in files]
+        if got != meta["want"]:
+            k = next((i for i, (x, y) in enumerate(zip(got, meta["want"])) if x != y), min(len(got), len(meta["want"])))
+            fs.append(Finding("violation", f"spec-encoded CHM: open() lists {len(got)} files, the specification has {len(meta['want'])}; first difference at {k}: "
+                                           f"{got[k] if k < len(got) else None} vs {meta['want'][k] if k < len(meta['want']) else None}"))
+        hd = next((C.kv(l) for l in op[1:] if l.startswith("chm ")), {})
+        for k_, v_ in meta["hdr"].items():
+            if k_ in hd and str(v_) != hd[k_]:
+                fs.append(Finding("violation", f"spec-encoded CHM: header field {k_} reported {hd[k_]}, specified {v_}"))
     if model is not None and not any("unsupported" in b[0] for b in model) and not crash:
         def proj(blocks):
             out = []
